@@ -682,3 +682,9 @@ PROOF_MODULES = PROOF_MODULES + ['Compute.Lemmas.StatRounding', 'Compute.Lemmas.
 REQUIRED_THEOREMS = REQUIRED_THEOREMS + ['Cv.Rounding2.covariance_error', 'Cv.Rounding2.sampleCovariance_error', 'Cv.Rounding2.covariance_self_error', 'Cv.Rounding2.shiftedCo_eq', 'Cv.Rounding2.absComoment_shift', 'Cv.Rounding2.welfordM2_error', 'Cv.Rounding2.var_error', 'Cv.Rounding2.sampleVar_error', 'Cv.Rounding2.welford_mean_term_necessary']
 NOT_PROVED = [x for x in NOT_PROVED if not any(k in str(x) for k in ('floating-point rounding of variance / covariance',))]
 NOT_PROVED = NOT_PROVED + ["rounding of the one-pass and online covariance algorithms (oracle only); for the two-pass covariance/variance and for Welford's M2 / var / sample_var the bounds ARE proved in the standard model (Props/Rounding2): two-pass error = gamma_(n+5) x centred first-order scale (exactly shift-invariant) + second-order terms in the means; Welford's bound necessarily contains a mean term (welford_mean_term_necessary)"]
+
+# --- source tie, loops (tools/rs2lean.py loops=True: accumulation loops and iterator chains regenerated from /repo/src into
+# Generated/SrcC08Loops.lean and proved equal to the hand model in Props/SrcTieC08Loops.lean)
+from . import srctie
+srctie.wire_loops(globals(), 'C08')
+PROOF_MODULES = PROOF_MODULES + ['Compute.Lemmas.SrcLoops']
